@@ -12,8 +12,9 @@ sign).
 
 A node is a number: the pair (address, key) registered in the suffrage; a sign
 with a key that is not the suffrage's key for that address is a node outside the
-suffrage.  A ballot fact is its hash (a string).  Stuck voteproofs (never a
-majority) are not modelled.
+suffrage.  A ballot fact is its hash (a string).  A stuck voteproof is not
+recounted; it must carry no majority (`stuckNoMajority`: the repaired
+`baseStuckVoteproof.isValid`; the code before the repair did not check that).
 -/
 namespace Mitum.Voteproof
 open Mitum.Vote Mitum.Threshold
@@ -30,6 +31,7 @@ structure VP where
   votes : List (Nat × String)   -- sign facts: (node, fact)
   expels : List Expel
   majority : Option String      -- `none` = draw
+  stuck : Bool := false
 deriving Repr, DecidableEq
 
 def VP.expelled (vp : VP) : List Nat := vp.expels.map (·.node)
@@ -56,7 +58,7 @@ def expectedRes (vp : VP) : Res :=
 
 /-- accepted by `IsValid` (counting-relevant part) and `IsValidVoteproofWithSuffrage`;
 `order` is the iteration order of the vote-count map -/
-def validWith (S : List Nat) (t10 : Nat) (order : List String) (vp : VP) : Bool :=
+def validWith (S : List Nat) (t10 : Nat) (order : List String) (vp : VP) (stuckNoMajority : Bool := true) : Bool :=
   let rs := reduced S t10 vp
   !vp.votes.isEmpty &&
   nodup (vp.votes.map (·.1)) &&
@@ -65,10 +67,15 @@ def validWith (S : List Nat) (t10 : Nat) (order : List String) (vp : VP) : Bool 
      vp.votes.all (fun v => !vp.expelled.contains v.1) &&
      vp.expels.all (expelOK S (expelSignThreshold S.length t10 vp.expels.length)))) &&
   vp.votes.all (fun v => rs.1.contains v.1) &&
-  decide (findVoteResult rs.1.length (required rs.1.length rs.2) (vp.votes.map (·.2)) order = expectedRes vp)
+  (vp.stuck || decide (findVoteResult rs.1.length (required rs.1.length rs.2) (vp.votes.map (·.2)) order = expectedRes vp)) &&
+  (!vp.stuck ||
+    (!vp.expels.isEmpty && decide (t10 = 1000) && decide (S.length = vp.votes.length + vp.expels.length) &&
+     (!stuckNoMajority || vp.majority.isNone) &&
+     -- `isValidVoteproofVoteResult`: a declared majority must be one of the sign facts
+     (match vp.majority with | some f => (vp.votes.map (·.2)).contains f | none => true)))
 
-def valid (S : List Nat) (t10 : Nat) (vp : VP) : Bool :=
-  validWith S t10 (keysOf (vp.votes.map (·.2))) vp
+def valid (S : List Nat) (t10 : Nat) (vp : VP) (stuckNoMajority : Bool := true) : Bool :=
+  validWith S t10 (keysOf (vp.votes.map (·.2))) vp stuckNoMajority
 
 /-- nodes that signed `x` in `A` and `y` in `B` -/
 def votersFor (vp : VP) (f : String) : List Nat := (vp.votes.filter (fun v => v.2 = f)).map (·.1)
